@@ -259,9 +259,10 @@ func runC20Hot(c *fw.Case, set []int) (o fw.Outcome) {
 	// every second hot loop: all UEs hold IDENTICAL key material and goroutines 2j / 2j+1 are twins that issue the same
 	// calls with the same inputs (only SUPI and ids differ) - state keyed by key or input BYTES is then truly shared
 	twins := (c.Idx/len(c20HotSets)+c.Idx)%2 == 1
+	twinFrom := G / 2 // the upper half of the goroutines are twins, the lower half keeps related keys
 	for _, k := range set {
 		if c20OpNames[k] == "key-derivation" { // keyed by derived key BYTES all the way down: only identical inputs share anything
-			twins = true
+			twins, twinFrom = true, 0
 		}
 	}
 	names := ""
@@ -279,7 +280,7 @@ func runC20Hot(c *fw.Case, set []int) (o fw.Outcome) {
 		for _, k := range [][]byte{a.ue.KnasInt[:], a.ue.KnasEnc[:]} { // same first octets for every UE of the case
 			k[0], k[1] = byte(seed>>8), byte(seed>>16)
 		}
-		if twins {
+		if twins && g >= twinFrom { // the upper half of the goroutines: identical keys, pairwise identical inputs; the lower half keeps related keys
 			a0 := c20NewActor(seed, 0)
 			a.k, a.opc, a.ue.KnasEnc, a.ue.KnasInt = a0.k, a0.opc, a0.ue.KnasEnc, a0.ue.KnasInt
 			a.r = rand.New(rand.NewSource(seed + int64(g/2)*7919 + 1))
